@@ -29,6 +29,11 @@ impl Ctx {
         if self.execs >= self.limit || cand == self.best {
             return false;
         }
+        if let ReplayCase::Display(c) = &cand {
+            if !crate::gen::program_valid(&c.property, &c.config, &c.program) {
+                return false;
+            }
+        }
         self.execs += 1;
         let j = judge(&cand);
         if j.harness_error.is_some() {
